@@ -1,5 +1,7 @@
 import Drpc.Lemmas.Delivery
 import Drpc.Props.C09
+import Drpc.Lemmas.StreamPktBuf
+import Drpc.Lemmas.StreamInvStep
 /-
   C01 — Per-stream delivery is in-order, exactly-once, uncorrupted and complete: the pure data path.
   Property theorems only; helper lemmas live in Drpc/Lemmas/Delivery.lean.
@@ -99,5 +101,101 @@ example :
       ([⟨[9#8], 1#64, 0xFFFFFFFFFFFFFFFF#64, 2#8, false⟩, ⟨[7#8], 2#64, 0#64, 1#8, false⟩],
         .stuck (2#64, 1#64) none []) :=
   delivery_pure 100 0 _ _ (by decide) (by decide) (by decide) (by decide)
+
+open Drpc.Stream
+
+/-! ## Level 2: the stream's one-slot packet buffer (`drpcstream/pktbuf.go`) in the atomic-step
+    model, for every reachable state (any number of concurrent `HandlePacket` / `MsgRecv` /
+    terminating calls).  `putLog` = payloads stored by `Put`, `getLog` = payloads handed out by
+    `Get`, both in order (ghost fields). -/
+
+/-- FIFO, exactly-once: what has been handed out is a prefix of what was stored — same payloads,
+    same order, none twice, none skipped — and at most one stored payload is not yet handed out. -/
+theorem pktbuf_fifo {s : St} (h : Reach s) :
+    s.sh.getLog <+: s.sh.putLog ∧ s.sh.getLog.length ≤ s.sh.putLog.length ∧
+    s.sh.putLog.length ≤ s.sh.getLog.length + 1 := by
+  have pb := (reach_pktbuf h).pb
+  have key : s.sh.putLog = s.sh.getLog ∨ ∃ d, s.sh.putLog = s.sh.getLog ++ [d] := by
+    cases hps : s.sh.pset with
+    | false =>
+      rcases pb.empty hps with h1 | ⟨_, h1⟩
+      · exact .inl h1
+      · exact .inr h1
+    | true =>
+      cases hph : s.sh.pheld with
+      | false => exact .inr ⟨_, pb.stored hps hph⟩
+      | true => exact .inl (pb.lent hph).1
+  rcases key with h1 | ⟨d, h1⟩ <;> rw [h1] <;> simp
+
+/-- The only payload that can be lost is the one stored and not yet handed out when the buffer is
+    closed with an error; while the buffer is open (`perr = none`) and the slot is empty, everything
+    stored has been handed out. -/
+theorem pktbuf_nothing_lost_while_open {s : St} (h : Reach s) (he : s.sh.perr = none) (hs : s.sh.pset = false) :
+    s.sh.putLog = s.sh.getLog := by
+  rcases (reach_pktbuf h).pb.empty hs with h1 | ⟨h1, _⟩
+  · exact h1
+  · rw [he] at h1; cases h1
+
+/-- The lent buffer is not overwritten: while `held` is set (a receive is between `Get` and `Done`)
+    the slot is occupied and the buffer open, and the only step of any thread that changes the
+    packet buffer or its logs is the `Done` of the receive holding it … -/
+theorem pktbuf_lend {s s' : St} {t : Tid} (h : Reach s) (hh : s.sh.pheld = true) (hs : step s t = some s') :
+    (s.sh.pset = true ∧ s.sh.perr = none) ∧
+    ((∃ r, s.pc t = .pdone r) ∨
+     (s'.sh.pset = s.sh.pset ∧ s'.sh.pheld = true ∧ s'.sh.pdata = s.sh.pdata ∧ s'.sh.perr = s.sh.perr ∧
+      s'.sh.putLog = s.sh.putLog ∧ s'.sh.getLog = s.sh.getLog)) :=
+  ⟨(reach_pktbuf h).pb.held hh, step_lend hs (reach_locks h) (reach_pktbuf h) hh⟩
+
+/-- … in particular a `Put` (either phase) and a `Close` of the buffer wait. -/
+theorem pktbuf_lend_blocks {s : St} {t : Tid} (h : Reach s) (hh : s.sh.pheld = true) :
+    (∀ d, s.pc t = .put1 d → step s t = none) ∧ (s.pc t = .put2 → step s t = none) ∧
+    (∀ e c, s.pc t = .tClose e c → step s t = none) ∧ (∀ c, s.pc t = .hPClose c → step s t = none) := by
+  obtain ⟨hps, hpe⟩ := (reach_pktbuf h).pb.held hh
+  refine ⟨?_, ?_, ?_, ?_⟩ <;> intros <;> simp [step, stepPC, *]
+
+/-- `Put` returns only after consumption: the thread leaves the second phase of `Put` only when
+    nothing is lent and every payload stored so far (its own included) has been handed out — or
+    the buffer has been closed with an error. -/
+theorem put_returns_only_after_consumption {s s' : St} {t : Tid} (h : Reach s) (hp : s.pc t = .put2)
+    (hs : step s t = some s') :
+    s.sh.pheld = false ∧ (s.sh.putLog = s.sh.getLog ∨ s.sh.perr.isSome = true) := by
+  simp only [step, hp, stepPC] at hs
+  split at hs
+  · cases hs
+  · rename_i hc
+    simp only [Bool.or_eq_true, not_or, Bool.not_eq_true] at hc
+    refine ⟨hc.2, ?_⟩
+    rcases (reach_pktbuf h).pb.empty hc.1 with h1 | ⟨h1, _⟩
+    · exact .inl h1
+    · exact .inr h1
+
+/-- A receive returns what was put: the payload a `MsgRecv` holds between `Get` and `Done`, and
+    the payload it is about to return, is the one handed out last, and by `pktbuf_fifo` that is the
+    stored payload at the same position of `putLog`. -/
+theorem recv_returns_what_was_put {s : St} {t : Tid} (h : Reach s) :
+    (∀ d m, s.pc t = .unmarshal d m → s.sh.getLog.getLast? = some d ∧ d ∈ s.sh.putLog) ∧
+    (∀ d, s.pc t = .pdone (.data d) → s.sh.getLog.getLast? = some d ∧ d ∈ s.sh.putLog) := by
+  have hl := (reach_pktbuf h).recvLast t
+  have hpre := (pktbuf_fifo h).1
+  have mem : ∀ d, s.sh.getLog.getLast? = some d → d ∈ s.sh.putLog := by
+    intro d hd
+    exact hpre.subset (List.mem_of_getLast? hd)
+  constructor
+  · intro d m hp
+    have := hl d (by simp [hp])
+    exact ⟨this, mem d this⟩
+  · intro d hp
+    have := hl d (by simp [hp])
+    exact ⟨this, mem d this⟩
+
+/-- non-vacuity: a `KindMessage` packet handled by thread 0 (which then waits in `Put` for the
+    consumer) and a `MsgRecv` by thread 1 that returns exactly that payload: both logs hold it,
+    the slot is free again, and thread 0 may now leave `Put`. -/
+example :
+    let s := call (call {} 0 (.handle kindMessage false true [7#8])) 1 (.msgRecv {})
+    Reach s ∧ s.pc 0 = .put2 ∧ s.pc 1 = .done (.data [7#8]) ∧ s.sh.putLog = [[7#8]] ∧ s.sh.getLog = [[7#8]] ∧
+    s.sh.pset = false ∧ s.sh.pheld = false ∧ (step s 0).isSome = true := by
+  refine ⟨reach_call _ (reach_call _ (Reach.init {}) ⟨_, rfl⟩) ⟨.nil, by decide⟩, by decide, by decide, by decide,
+    by decide, by decide, by decide, by decide⟩
 
 end Drpc.Props.C01
